@@ -401,4 +401,221 @@ Proof.
   destruct (multi_allocate c v size align typeBits reqDed prefDed ded bufimg usage flags0 req pref ctb pool sub slots) as (v' & r). exact H.
 Qed.
 
+
+(* ---------------------------------------------------------------- C02: the alignment a block allocation is placed with *)
+
+Lemma alloc_from_block_align v lr bid size align flags sub s v' :
+  alloc_from_block c v lr bid size align flags sub s = (v', AFOk) -> 0 <= s < zlen (v_tab v) ->
+  a_align (get_alloc v' s) = align /\ a_kind (get_alloc v' s) = 1 /\ a_lref (get_alloc v' s) = lr.
+Proof.
+  unfold alloc_from_block. destruct (get_block v lr bid) as [b|]; [|discriminate]. destruct (negb _); [discriminate|].
+  destruct (meta_create_request _ _ _ _ _ _) as [mt1 rq| | |]; try discriminate.
+  unfold commit_request. set (v1 := put_block v lr _).
+  assert (Hp : forall w bb, v_tab (put_block w lr bb) = v_tab w) by (intros; unfold put_block; destruct (get_blist w lr); [apply set_blist_tab|reflexivity]).
+  assert (Et1 : v_tab v1 = v_tab v) by apply Hp.
+  destruct (get_blist v1 lr) as [l1|]; [|discriminate]. destruct (get_block v1 lr bid) as [b1|]; [|discriminate].
+  destruct (sm_sub _ _ _) as (m1 & s1). destruct (if fl flags F_MAPPED then _ else _) as ((m2 & s2) & mr).
+  destruct mr as [[]|code| |]; try discriminate.
+  destruct (meta_alloc _ _ _ _ _ _) as [(mt2 & h)|code| |]; try discriminate.
+  destruct (_ && _); [discriminate|]. intros E Hs. injection E as <-.
+  unfold get_alloc. cbn [set_m v_tab set_alloc set_tab]. rewrite nth_z_set_same; [cbn; auto|].
+  rewrite Hp. cbn [set_alloc set_tab v_tab]. unfold zlen. rewrite set_nth_z_length. rewrite Hp. cbn [set_m v_tab]. rewrite Et1. exact Hs.
+Qed.
+
+Definition placed (v : vam) (lr : lref) (align : Z) (slots : list Z) : Prop :=
+  forall s, In s slots -> a_align (get_alloc v s) = align /\ a_kind (get_alloc v s) = 1 /\ a_lref (get_alloc v s) = lr.
+
+Lemma sort_list_tab' v lr : v_tab (sort_list v lr) = v_tab v.
+Proof. unfold sort_list. destruct (get_blist v lr); [apply set_blist_tab|reflexivity]. Qed.
+
+Lemma try_blocks_align (Hc : cfg_ok c) bids : forall v U X lr size align flags sub s v',
+  VamInvU c v U X -> Bits.pow2 align -> 0 <= s < zlen (v_tab v) -> a_allocated (get_alloc v s) = false ->
+  try_blocks c v lr bids size align flags sub s = (v', AFOk) -> placed v' lr align [s].
+Proof.
+  induction bids as [|bid tl IH]; intros v U X lr size align flags sub s v' HI Hal Hs Hd E; cbn [try_blocks] in E; [discriminate|].
+  pose proof (alloc_from_block_inv c v U X lr bid size align flags sub s HI Hal Hs Hd) as P.
+  destruct (alloc_from_block c v lr bid size align flags sub s) as (v1 & r) eqn:Ea. destruct r; try discriminate.
+  - injection E as <-. destruct (alloc_from_block_align _ _ _ _ _ _ _ _ _ Ea Hs) as (A & B & C0).
+    intros x [<-|[]]. unfold get_alloc in *. rewrite sort_list_tab'. auto.
+  - cbn [af_post] in P. destruct P as (I1 & T1 & _ & D1). eapply IH; eauto. destruct T1 as (Ez & _). lia.
+Qed.
+
+Lemma alloc_page_align (Hc : cfg_ok c) v U X lr size align flags sub s v' :
+  VamInvU c v U X -> Bits.pow2 align -> 0 <= s < zlen (v_tab v) -> a_allocated (get_alloc v s) = false ->
+  alloc_page c v lr size align flags sub s = (v', OK tt) -> placed v' lr align [s].
+Proof.
+  intros HI Hal Hs Hd. unfold alloc_page. destruct (get_blist v lr) as [l|] eqn:Hg; [|discriminate].
+  pose proof (heap_budget_same c (v_m v) (type_heap c (bl_type l))) as Hb.
+  destruct (heap_budget c (v_m v) (type_heap c (bl_type l))) as ((m1 & usage) & budget). cbn [fst] in Hb.
+  destruct (_ && _); [discriminate|]. destruct (bl_pref l <? size); [discriminate|].
+  assert (I1 : VamInvU c (set_m v m1) U X) by (apply VamInvU_mach_same; auto).
+  pose proof (try_blocks_inv c (search_order c l flags) (set_m v m1) U X lr size align flags sub s I1 Hal Hs Hd) as TB.
+  pose proof (try_blocks_align Hc (search_order c l flags) (set_m v m1) U X lr size align flags sub s) as TA.
+  destruct (try_blocks c (set_m v m1) lr (search_order c l flags) size align flags sub s) as (v2 & r).
+  destruct r; try discriminate.
+  - intros E. injection E as <-. eapply TA; eauto.
+  - pose proof (af_keeps c _ _ _ _ _ _ _ TB) as K2.
+    destruct (negb _); [discriminate|].
+    destruct (if bl_explicit l then (bl_pref l, 0) else shrink_new_block 3 (bl_pref l) 0 (calc_max_block_size l) size) as (nbs & shift).
+    match goal with |- context [if ?cond then create_block c v2 lr nbs else (v2, ER VK_OODM)] =>
+      assert (K3 : let '(v3, first) := (if cond then create_block c v2 lr nbs else (v2, ER VK_OODM)) in keeps c (set_m v m1) v3 U X s);
+      [destruct cond; [apply (create_block_keeps c Hc); exact K2|exact K2]|
+       destruct (if cond then create_block c v2 lr nbs else (v2, ER VK_OODM)) as (v3 & first)]
+    end.
+    match goal with |- context [if bl_explicit l then (v3, first) else ?rc] =>
+      assert (K4 : let '(v4, created) := (if bl_explicit l then (v3, first) else rc) in keeps c (set_m v m1) v4 U X s);
+      [destruct (bl_explicit l); [exact K3|apply (retry_create_inv c Hc); exact K3]|
+       destruct (if bl_explicit l then (v3, first) else rc) as (v4 & created)]
+    end.
+    destruct created as [bid|code| |]; try discriminate.
+    destruct (get_block v4 lr bid) as [nb|]; [|discriminate]. destruct (meta_size (bk_meta nb) <? size); [discriminate|].
+    destruct K4 as (I4 & T4 & _ & D4).
+    assert (Hs4 : 0 <= s < zlen (v_tab v4)) by (destruct T4 as (Ez & _); cbn in Ez; lia).
+    destruct (alloc_from_block c v4 lr bid size align flags sub s) as (v5 & r2) eqn:Ea.
+    destruct r2.
+    + intros E. injection E as <-. destruct (alloc_from_block_align _ _ _ _ _ _ _ _ _ Ea Hs4) as (A & B & C0).
+      intros x [<-|[]]. unfold get_alloc in *. rewrite sort_list_tab'. auto.
+    + destruct (match get_blist v5 lr with Some _ => _ | None => _ end) as (v6 & dr). destruct dr; discriminate.
+    + destruct (match get_blist v5 lr with Some _ => _ | None => _ end) as (v6 & dr). destruct dr; discriminate.
+    + discriminate.
+    + discriminate.
+Qed.
+
+Lemma allocate_loop_align (Hc : cfg_ok c) slots : forall v U X lr done size align flags sub v' done',
+  VamInvU c v U X -> Bits.pow2 align -> NoDup (slots ++ done) -> dead_slots v slots -> placed v lr align done ->
+  allocate_loop c v lr slots done size align flags sub = (v', OK tt, done') -> placed v' lr align (slots ++ done).
+Proof.
+  induction slots as [|s tl IH]; intros v U X lr done size align flags sub v' done' HI Hal Hnd Hdead Hpl E; cbn [allocate_loop] in E.
+  - injection E as <- _. exact Hpl.
+  - destruct (Hdead s (or_introl eq_refl)) as (Hr & Hd). cbn [app] in Hnd. inversion Hnd as [|? ? Hns Hnd']; subst.
+    pose proof (alloc_page_inv c Hc v U X lr size align flags sub s HI Hal Hr Hd) as AP.
+    pose proof (alloc_page_align Hc v U X lr size align flags sub s) as AA.
+    destruct (alloc_page c v lr size align flags sub s) as (v1 & r). destruct r as [[]|code| |]; try discriminate.
+    cbn [ap_post] in AP. destruct AP as (I1 & T1 & _ & _). specialize (AA v1 HI Hal Hr Hd eq_refl).
+    assert (Hpl1 : placed v1 lr align (s :: done)).
+    { intros x [<-|Hx]; [apply AA; left; reflexivity|]. rewrite (get_alloc_frame _ _ _ _ T1); [apply Hpl; exact Hx|].
+      intros [<-|[]]. apply Hns. apply in_app_iff. auto. }
+    assert (Hd1 : dead_slots v1 tl).
+    { eapply dead_slots_frame; [intros s1 H1; apply Hdead; right; exact H1|exact T1|]. intros s1 H1 [<-|[]]. apply Hns. apply in_app_iff. auto. }
+    assert (Hnd1 : NoDup (tl ++ s :: done)) by (eapply Permutation.Permutation_NoDup; [apply Permutation.Permutation_middle|constructor; auto]).
+    specialize (IH v1 U X lr (s :: done) size align flags sub v' done' I1 Hal Hnd1 Hd1 Hpl1 E).
+    intros x Hx. apply IH. cbn in Hx. apply in_app_iff. destruct Hx as [<-|Hx]; [right; left; reflexivity|].
+    apply in_app_iff in Hx. destruct Hx; [left; auto|right; right; auto].
+Qed.
+
+(* memoryBlockList.Allocate places every object with max(requested alignment, the list's minimum alignment) *)
+Lemma bl_allocate_align (Hc : cfg_ok c) v U X lr l slots size align0 flags sub v' :
+  VamInvU c v U X -> get_blist v lr = Some l -> align0 = 0 \/ Bits.pow2 align0 -> NoDup slots -> dead_slots v slots ->
+  bl_allocate c v lr slots size align0 flags sub = (v', OK tt) ->
+  placed v' lr (Z.max align0 (bl_minalign l)) slots.
+Proof.
+  intros HI Hg Hal Hnd Hdead. unfold bl_allocate. rewrite Hg.
+  pose proof (vi_lists _ _ _ _ HI _ _ Hg) as Hwf.
+  assert (Ea : (if align0 <? bl_minalign l then bl_minalign l else align0) = Z.max align0 (bl_minalign l)).
+  { destruct (align0 <? bl_minalign l) eqn:E; [apply Z.ltb_lt in E; lia|apply Z.ltb_ge in E; lia]. }
+  rewrite Ea.
+  assert (Hal' : Bits.pow2 (Z.max align0 (bl_minalign l))).
+  { rewrite <- Ea. pose proof (bw_align _ _ Hwf) as Hm. pose proof (Bits.pow2_pos _ Hm). destruct (align0 <? bl_minalign l) eqn:E; [auto|].
+    destruct Hal as [->|H']; [apply Z.ltb_ge in E; lia|auto]. }
+  pose proof (allocate_loop_align Hc slots v U X lr [] size (Z.max align0 (bl_minalign l)) flags sub) as AL.
+  destruct (allocate_loop c v lr slots [] size _ flags sub) as ((v1 & r) & done). destruct r as [[]|code| |]; try discriminate.
+  - intros E. injection E as <-. specialize (AL v1 done HI Hal' ltac:(rewrite app_nil_r; exact Hnd) Hdead ltac:(intros ? []) eq_refl).
+    rewrite app_nil_r in AL. exact AL.
+  - destruct (unwind_loop c v1 lr done) as (v2 & ur). destruct ur as [[]|uc| |]; try discriminate.
+    destruct (release_empty_since c v2 lr (bl_next l)) as (v3 & rr). destruct rr; discriminate.
+Qed.
+
+
+Definition aligned_post (v' : vam) (align : Z) (slots : list Z) : Prop :=
+  forall s, In s slots -> a_kind (get_alloc v' s) = 1 ->
+  exists l, get_blist v' (a_lref (get_alloc v' s)) = Some l /\ a_align (get_alloc v' s) = Z.max align (bl_minalign l).
+
+Lemma ded_aligned v' size align slots : ded_of v' slots size -> aligned_post v' align slots.
+Proof. intros D s Hs K. destruct (D s Hs) as (_ & K2 & _). congruence. Qed.
+
+Lemma alloc_of_type_align (Hc : cfg_ok c) v X lr l ty size align dedPref flags sub slots ded v' :
+  VamInvU c v [] X -> get_blist v lr = Some l -> bl_type l = ty -> align = 0 \/ Bits.pow2 align ->
+  NoDup slots -> dead_slots v slots ->
+  alloc_of_type c v lr ty size align dedPref flags sub slots ded = (v', OK tt) -> aligned_post v' align slots.
+Proof.
+  intros HI Hg Hty Hal Hnd Hdead. unfold alloc_of_type. destruct slots as [|s0 tl0] eqn:Eslots; [discriminate|]. rewrite <- Eslots in *.
+  rewrite Hg.
+  set (f1 := if fl flags F_MAPPED && negb (host_visible c ty) then fl_clear flags F_MAPPED else flags).
+  pose proof (calc_type_params_spec c v ty size (zlen slots) flags) as Hctp. fold f1 in Hctp.
+  destruct (calc_type_params c v ty size (zlen slots) flags) as (v1 & fr).
+  destruct Hctp as (m1 & -> & Hm1 & Hfr).
+  assert (I1 : VamInvU c (set_m v m1) [] X) by (apply VamInvU_mach_same; auto).
+  assert (Hg1 : get_blist (set_m v m1) lr = Some l) by (rewrite get_blist_set_m; auto).
+  assert (Hdead1 : dead_slots (set_m v m1) slots) by exact Hdead.
+  destruct fr as [flags'|code| |]; try contradiction; [|discriminate]. subst flags'.
+  assert (Hded : forall w, (forall s, In s slots -> 0 <= s < zlen (v_tab w)) ->
+            allocate_dedicated c w lr ty size sub (fl f1 F_MAPPED) (mapping_allowed f1) slots ded = (v', OK tt) -> aligned_post v' align slots).
+  { intros w Hr E. eapply ded_aligned. eapply allocate_dedicated_result; eauto. }
+  destruct (fl f1 F_DEDICATED); [apply Hded; intros s Hs; apply Hdead1; exact Hs|].
+  set (canDed := negb (fl f1 F_NEVER) && (negb match lr with LPool _ => true | LDef _ => false end || negb (bl_explicit l))).
+  match goal with |- context [if canDed then ?x else dedPref] => set (dp := if canDed then x else dedPref) end.
+  destruct (canDed && dp) eqn:Ecd.
+  - pose proof (allocate_dedicated_inv c (set_m v m1) X lr l ty size sub (fl f1 F_MAPPED) (mapping_allowed f1) slots ded I1 Hg1 Hty Hnd Hdead1) as P.
+    destruct (allocate_dedicated c (set_m v m1) lr ty size sub (fl f1 F_MAPPED) (mapping_allowed f1) slots ded) as (v2 & r) eqn:Ead.
+    destruct r as [[]|code| |]; try discriminate.
+    + intros E. injection E as <-. eapply ded_aligned. eapply allocate_dedicated_result; eauto. intros s Hs. apply Hdead1. exact Hs.
+    + cbn in P. destruct P as (I2 & T2 & L2 & D2). destruct (lf'_some _ _ L2 _ _ Hg1) as (l2 & G2 & C2).
+      pose proof (bl_allocate_inv c Hc v2 [] X lr slots size align f1 sub I2 Hal Hnd D2) as BA.
+      pose proof (bl_allocate_align Hc v2 [] X lr l2 slots size align f1 sub) as BL.
+      destruct (bl_allocate c v2 lr slots size align f1 sub) as (v3 & br). destruct br as [[]|bcode| |]; try discriminate.
+      * intros E. injection E as <-. specialize (BL v3 I2 G2 Hal Hnd D2 eq_refl).
+        destruct BA as ((_ & _ & C3) & _). destruct (lf_some _ _ C3 _ _ G2) as (l3 & G3 & S3).
+        intros s Hs _. destruct (BL s Hs) as (A1 & A2 & A3). exists l3. rewrite A3. split; [exact G3|].
+        rewrite A1. destruct S3 as (_ & _ & _ & _ & _ & _ & _ & Hma & _). rewrite Hma. reflexivity.
+      * destruct (canDed && negb dp); [|discriminate].
+        destruct (heap_budget c (v_m v3) (type_heap c ty)) as ((m4 & usage) & budget). destruct (budget <? _); [discriminate|].
+        apply Hded. intros s Hs. destruct BA as ((_ & (Ez & _) & _) & Dd). cbn [set_m v_tab]. apply Dd. exact Hs.
+  - pose proof (bl_allocate_inv c Hc (set_m v m1) [] X lr slots size align f1 sub I1 Hal Hnd Hdead1) as BA.
+    pose proof (bl_allocate_align Hc (set_m v m1) [] X lr l slots size align f1 sub) as BL.
+    destruct (bl_allocate c (set_m v m1) lr slots size align f1 sub) as (v3 & br). destruct br as [[]|bcode| |]; try discriminate.
+    + intros E. injection E as <-. specialize (BL v3 I1 Hg1 Hal Hnd Hdead1 eq_refl).
+      destruct BA as ((_ & _ & C3) & _). destruct (lf_some _ _ C3 _ _ Hg1) as (l3 & G3 & S3).
+      intros s Hs _. destruct (BL s Hs) as (A1 & A2 & A3). exists l3. rewrite A3. split; [exact G3|].
+      rewrite A1. destruct S3 as (_ & _ & _ & _ & _ & _ & _ & Hma & _). rewrite Hma. reflexivity.
+    + destruct (canDed && negb dp); [|discriminate].
+      destruct (heap_budget c (v_m v3) (type_heap c ty)) as ((m4 & usage) & budget). destruct (budget <? _); [discriminate|].
+      apply Hded. intros s Hs. destruct BA as (_ & Dd). cbn [set_m v_tab]. apply Dd. exact Hs.
+Qed.
+
+Lemma type_loop_align (Hc : cfg_ok c) fuel : forall v X bits ty size align dedPref usage flags req pref ctb sub slots ded bufimg v',
+  VamInvU c v [] X -> align = 0 \/ Bits.pow2 align -> NoDup slots -> dead_slots v slots ->
+  type_loop c fuel v bits ty size align dedPref usage flags req pref ctb sub slots ded bufimg = (v', OK tt) -> aligned_post v' align slots.
+Proof.
+  induction fuel as [|f IH]; intros v X bits ty size align dedPref usage flags req pref ctb sub slots ded bufimg v' HI Hal Hnd Hdead E;
+    cbn [type_loop] in E; [discriminate|].
+  destruct (get_blist v (LDef ty)) as [l|] eqn:Hg; [|discriminate].
+  pose proof (alloc_of_type_inv c Hc v X (LDef ty) l ty size align dedPref flags sub slots ded HI Hg (vi_def_type _ _ _ _ HI _ _ Hg) Hal Hnd Hdead) as P.
+  pose proof (alloc_of_type_align Hc v X (LDef ty) l ty size align dedPref flags sub slots ded) as A.
+  destruct (alloc_of_type c v (LDef ty) ty size align dedPref flags sub slots ded) as (v1 & r) eqn:Ea.
+  destruct r as [[]|code| |]; try discriminate.
+  - injection E as <-. eapply A; eauto. apply (vi_def_type _ _ _ _ HI _ _ Hg).
+  - destruct (code =? VK_UNKNOWN); [discriminate|]. destruct P as (I1 & T1 & L1 & D1).
+    destruct (find_type_index c (v_global v1) _ usage flags req pref ctb bufimg) as [ty'|]; [|discriminate].
+    eapply IH; eauto.
+Qed.
+
+(* C02: a successful allocation places every block allocation with max(requested alignment, minimum alignment of
+   its block list); with VamProps.alloc_denotes_valid_range (offset mod a_align = 0) the offset is a multiple
+   of both *)
+Theorem placed_alignment v size align typeBits reqDed prefDed ded bufimg usage flags0 req pref ctb pool sub slots v' :
+  cfg_ok c -> VamInv c v -> NoDup slots -> dead_slots v slots ->
+  multi_allocate c v size align typeBits reqDed prefDed ded bufimg usage flags0 req pref ctb pool sub slots = (v', OK tt) ->
+  forall s, In s slots -> a_kind (get_alloc v' s) = 1 ->
+  exists l, get_blist v' (a_lref (get_alloc v' s)) = Some l /\ a_align (get_alloc v' s) = Z.max align (bl_minalign l).
+Proof.
+  intros Hc HI Hnd Hdead E. unfold multi_allocate in E.
+  destruct (is_pow2_or_zero align) eqn:Ea; cbn [negb] in E; [|discriminate]. pose proof (pow2_or_zero_spec _ Ea) as Hal.
+  destruct (size <? 1); [discriminate|].
+  destruct (calc_params usage flags0 reqDed _) as [flags|code| |] eqn:Ecp; try discriminate.
+  destruct pool as [uid|].
+  - destruct (get_blist v (LPool uid)) as [l|] eqn:Hg; [|discriminate]. eapply alloc_of_type_align; eauto.
+  - destruct (find_type_index c (v_global v) typeBits usage flags req pref ctb bufimg) as [ty|]; [|discriminate].
+    eapply type_loop_align; eauto.
+Qed.
+
 End WithCfg.
